@@ -235,7 +235,7 @@ def run(ctx, shared=True):
                       "the checkpoint's log_q values are not those of the /flow stored next to it")
     if shared:
         from . import c04 as _c04
-        reuse(ctx, _c04.run, ("C04.wire",), "C14wire", "wiring rule shared with C04: the configuration comes back from the file with its mappings in HDF5 (sorted) key order; transforms that "
+        reuse(ctx, lambda c: _c04.run(c, shared=False), ("C04.wire",), "C14wire", "wiring rule shared with C04: the configuration comes back from the file with its mappings in HDF5 (sorted) key order; transforms that "
               "take bounds in mapping order instead of parameter order are rebuilt with another parameter's bounds after resume_from_file, so the reloaded instance contradicts the checkpoint next to it")
     if shared:
         reuse(ctx, c19.run, ("C19.ac",), "C14ctx", "context rule shared with C19: checkpoint defaults left behind after the with-block make later calls write to the old file")
